@@ -291,4 +291,413 @@ theorem reach_ginv {st : State Node Id Conn S Cmd Reply} (r : ReachF step s0 st)
 theorem reach_node {st : State Node Id Conn S Cmd Reply} (r : ReachF step s0 st) (i : Node) : ReachU step s0 (st.node i) :=
   (reach_ginv step s0 r).nodeR i
 
+
+/-! ## positions in the one log -/
+
+theorem prefix_get {α : Type} {l l' : List α} (hp : l <+: l') {j : Nat} {x : α} (h : l[j]? = some x) : l'[j]? = some x := by
+  obtain ⟨t, rfl⟩ := hp
+  rw [List.getElem?_append_left (lt_of_get h)]; exact h
+
+/-- an id has ONE position in the replicated log, whichever node's copy one looks at -/
+theorem GInv.pos_unique {st : State Node Id Conn S Cmd Reply} (h : GInv step s0 st) {n n' : Node} {j j' : Nat} {x x' : Entry Id Cmd}
+    (hx : (st.node n).log[j]? = some x) (hx' : (st.node n').log[j']? = some x') (hid : x.id = x'.id) : j = j' := by
+  rcases h.cmp n n' with hp | hp
+  · exact h.loguniq n' j j' x x' (prefix_get hp hx) hx' hid
+  · exact h.loguniq n j j' x x' hx (prefix_get hp hx') hid
+
+theorem GInv.del_le_subs {st : State Node Id Conn S Cmd Reply} (h : GInv step s0 st) (i : Node) (c : Conn) :
+    ((st.node i).delivered c).length ≤ ((st.node i).subs c).length :=
+  (own_reply step s0 (h.nodeR i) c).2.1
+
+/-! ## the cluster clock: real-time order across nodes -/
+
+/-- the history variables of the cluster clock are consistent, and **an operation answered at ANY node before another was submitted
+    at ANY node is earlier in the log** (whichever nodes' copies of the log one reads the two positions from) -/
+structure GInvT (st : State Node Id Conn S Cmd Reply) : Prop where
+  lenI : ∀ i c, (st.invT (i, c)).length = ((st.node i).subs c).length
+  lenR : ∀ i c, (st.resT (i, c)).length = ((st.node i).delivered c).length
+  ltI : ∀ (p : Node × Conn) (t : Nat), t ∈ st.invT p → t < st.now
+  ltR : ∀ (p : Node × Conn) (t : Nat), t ∈ st.resT p → t < st.now
+  /-- an operation is answered after it was submitted -/
+  ir : ∀ (p : Node × Conn) (k tr ti : Nat), (st.resT p)[k]? = some tr → (st.invT p)[k]? = some ti → ti < tr
+  rt : ∀ (i : Node) (c : Conn) (k : Nat) (i' : Node) (c' : Conn) (k' : Nat) (tr ti : Nat) (id id' : Id) (cmd cmd' : Cmd)
+    (n : Node) (j : Nat) (n' : Node) (j' : Nat),
+    (st.resT (i, c))[k]? = some tr → (st.invT (i', c'))[k']? = some ti → tr < ti →
+    ((st.node i).subs c)[k]? = some (id, cmd) → ((st.node i').subs c')[k']? = some (id', cmd') →
+    (st.node n).log[j]? = some ⟨id, cmd⟩ → (st.node n').log[j']? = some ⟨id', cmd'⟩ → j < j'
+
+theorem ginvT_init : GInvT (init s0 : State Node Id Conn S Cmd Reply) := by
+  refine ⟨?_, ?_, ?_, ?_, ?_, ?_⟩ <;> simp [init, Rendezvous.init]
+
+theorem ginvT_submit {st : State Node Id Conn S Cmd Reply} (g : GInv step s0 st) (t : GInvT st) (a : Node) (c0 : Conn) (cmd0 : Cmd) (id0 : Id)
+    (hg : RaftFacts st (.submit a c0 cmd0 id0)) : GInvT (next step st (.submit a c0 cmd0 id0)) := by
+  have hinv : (next step st (.submit a c0 cmd0 id0)).invT = upd st.invT (a, c0) (st.invT (a, c0) ++ [st.now]) := rfl
+  have hres : (next step st (.submit a c0 cmd0 id0)).resT = st.resT := rfl
+  have hnow : (next step st (.submit a c0 cmd0 id0)).now = st.now + 1 := rfl
+  -- a submission whose index is below the old length is an old one
+  have hold : ∀ {n : Node} {c' : Conn} {k : Nat} {p : Id × Cmd},
+      (((next step st (.submit a c0 cmd0 id0)).node n).subs c')[k]? = some p → k < ((st.node n).subs c').length →
+      ((st.node n).subs c')[k]? = some p := by
+    intro n c' k p h hk
+    rcases submit_subs_cases step st a c0 cmd0 id0 h with h | ⟨a1, b1, d1, _⟩
+    · exact h
+    · subst a1; subst b1; omega
+  refine ⟨?_, ?_, ?_, ?_, ?_, ?_⟩
+  · intro i c
+    rw [hinv]
+    by_cases hp : (i, c) = (a, c0)
+    · cases hp
+      rw [upd_same, submit_subs_self, upd_same]; simp [t.lenI]
+    · rw [upd_other _ _ hp]
+      by_cases hi : i = a
+      · subst hi
+        have hc : c ≠ c0 := fun hh => hp (by rw [hh])
+        rw [submit_subs_self, upd_other _ _ hc]; exact t.lenI i c
+      · rw [submit_subs_other step st a c0 cmd0 id0 hi]; exact t.lenI i c
+  · intro i c; rw [hres, submit_delivered]; exact t.lenR i c
+  · intro p x hx
+    rw [hnow]; rw [hinv] at hx
+    by_cases hp : p = (a, c0)
+    · subst hp; rw [upd_same] at hx
+      rcases List.mem_append.1 hx with hx | hx
+      · have := t.ltI _ _ hx; omega
+      · have : x = st.now := by simpa using hx
+        omega
+    · rw [upd_other _ _ hp] at hx; have := t.ltI _ _ hx; omega
+  · intro p x hx; rw [hnow]; have := t.ltR p x hx; omega
+  · intro p k tr ti hr hi
+    rw [hres] at hr; rw [hinv] at hi
+    rcases upd_concat_cases hi with hi | ⟨hp, hk, _⟩
+    · exact t.ir p k tr ti hr hi
+    · subst hp
+      have h1 := lt_of_get hr
+      rw [t.lenR] at h1; rw [t.lenI] at hk
+      have := g.del_le_subs step s0 a c0
+      omega
+  · intro i c k i' c' k' tr ti id id' cmd cmd' n j n' j' hr hi hlt hs hs' hl hl'
+    rw [hres] at hr; rw [hinv] at hi
+    rw [submit_log] at hl hl'
+    have hk : k < ((st.node i).subs c).length := by
+      have h1 := lt_of_get hr
+      rw [t.lenR] at h1
+      exact Nat.lt_of_lt_of_le h1 (g.del_le_subs step s0 i c)
+    have hs := hold hs hk
+    rcases upd_concat_cases hi with hi | ⟨hp, hk', _⟩
+    · have hk2 : k' < ((st.node i').subs c').length := by have := lt_of_get hi; rwa [t.lenI] at this
+      exact t.rt i c k i' c' k' tr ti id id' cmd cmd' n j n' j' hr hi hlt hs (hold hs' hk2) hl hl'
+    · cases hp
+      rw [t.lenI] at hk'
+      rcases submit_subs_cases step st a c0 cmd0 id0 hs' with hs' | ⟨_, _, _, hx⟩
+      · have := lt_of_get hs'; omega
+      · cases hx; exact absurd rfl ((hg n').2 _ (mem_of_get hl'))
+
+theorem ginvT_apply {st : State Node Id Conn S Cmd Reply} {a : Node} {e : Entry Id Cmd} (g : GInv step s0 st)
+    (g' : GInv step s0 (next step st (.apply a e))) (t : GInvT st) (hg : RaftFacts st (.apply a e)) :
+    GInvT (next step st (.apply a e)) := by
+  have hinv : (next step st (.apply a e)).invT = st.invT := rfl
+  have hres : (next step st (.apply a e)).resT = st.resT := rfl
+  have hnow : (next step st (.apply a e)).now = st.now + 1 := rfl
+  refine ⟨?_, ?_, ?_, ?_, ?_, ?_⟩
+  · intro i c; rw [hinv, apply_subs]; exact t.lenI i c
+  · intro i c; rw [hres, apply_delivered]; exact t.lenR i c
+  · intro p x hx; rw [hnow]; have := t.ltI p x hx; omega
+  · intro p x hx; rw [hnow]; have := t.ltR p x hx; omega
+  · exact t.ir
+  · intro i c k i' c' k' tr ti id id' cmd cmd' n j n' j' hr hi hlt hs hs' hl hl'
+    rw [hres] at hr; rw [hinv] at hi
+    rw [apply_subs] at hs hs'
+    -- the completed operation's entry is in the log of its own node, before this step
+    have hkd : k < ((st.node i).delivered c).length := by have := lt_of_get hr; rwa [t.lenR] at this
+    obtain ⟨r, hd⟩ : ∃ r, ((st.node i).delivered c)[k]? = some r := ⟨_, List.getElem?_eq_getElem hkd⟩
+    obtain ⟨id0, cmd0, j0, hs0, hl0, _⟩ := (reach_inv step s0 (g.nodeR i)).del c k r hd
+    rw [hs] at hs0; cases hs0
+    have hj : j = j0 := g'.pos_unique step s0 hl (apply_log_old step st a e hl0) rfl
+    subst hj
+    rcases apply_log_cases step st a e hl' with hl' | ⟨hn', hj', hx'⟩
+    · exact t.rt i c k i' c' k' tr ti id id' cmd cmd' i j n' j' hr hi hlt hs hs' hl0 hl'
+    · -- the later operation's entry is the one applied now, at the end of node `a`'s log
+      subst hj'
+      rcases hg.1 i with hp | hp
+      · have hB : (st.node i).log[(st.node a).log.length]? = some ⟨id', cmd'⟩ := by
+          rw [hx']; exact prefix_get hp (concat_last _ _)
+        exact t.rt i c k i' c' k' tr ti id id' cmd cmd' i j i _ hr hi hlt hs hs' hl0 hB
+      · rcases concat_cases (prefix_get hp hl0) with h1 | ⟨h1, h2⟩
+        · exact lt_of_get h1
+        · rw [← hx'] at h2
+          cases h2
+          obtain ⟨a1, a2, a3⟩ := g.gsub _ _ _ _ _ _ _ _ _ hs hs'
+          subst a1; subst a2; subst a3
+          have := t.ir _ _ _ _ hr hi
+          omega
+
+theorem ginvT_receive {st : State Node Id Conn S Cmd Reply} (t : GInvT st) (a : Node) (c0 : Conn)
+    (hen : Rendezvous.enabled (st.node a) (.receive c0 : Rendezvous.Event Id Conn Cmd) = true) :
+    GInvT (next step st (.receive a c0)) := by
+  have hen' := hen
+  simp only [Rendezvous.enabled, Bool.and_eq_true, Option.isSome_iff_exists] at hen'
+  obtain ⟨⟨id, hw⟩, ⟨r, hm⟩⟩ := hen'
+  have hinv : (next step st (.receive a c0)).invT = st.invT := receive_invT step st a c0
+  have hres : (next step st (.receive a c0)).resT = upd st.resT (a, c0) (st.resT (a, c0) ++ [st.now]) := by
+    rw [next_receive_en step hen]
+  have hnow : (next step st (.receive a c0)).now = st.now + 1 := by rw [next_receive_en step hen]
+  have hdel : ((next step st (.receive a c0)).node a).delivered = upd (st.node a).delivered c0 ((st.node a).delivered c0 ++ [r]) := by
+    rw [next_receive_en step hen]; simp only [upd_same]; rw [next_receive step hw hm]
+  have hdel' : ∀ n, n ≠ a → (next step st (.receive a c0)).node n = st.node n := by
+    intro n hn; rw [next_receive_en step hen]; simp only [upd_other _ _ hn]
+  refine ⟨?_, ?_, ?_, ?_, ?_, ?_⟩
+  · intro i c; rw [hinv, receive_subs]; exact t.lenI i c
+  · intro i c
+    rw [hres]
+    by_cases hp : (i, c) = (a, c0)
+    · cases hp
+      rw [upd_same, hdel, upd_same]; simp [t.lenR]
+    · rw [upd_other _ _ hp]
+      by_cases hi : i = a
+      · subst hi
+        have hc : c ≠ c0 := fun hh => hp (by rw [hh])
+        rw [hdel, upd_other _ _ hc]; exact t.lenR i c
+      · rw [hdel' i hi]; exact t.lenR i c
+  · intro p x hx; rw [hnow]; rw [hinv] at hx; have := t.ltI p x hx; omega
+  · intro p x hx
+    rw [hnow]; rw [hres] at hx
+    by_cases hp : p = (a, c0)
+    · subst hp; rw [upd_same] at hx
+      rcases List.mem_append.1 hx with hx | hx
+      · have := t.ltR _ _ hx; omega
+      · have : x = st.now := by simpa using hx
+        omega
+    · rw [upd_other _ _ hp] at hx; have := t.ltR _ _ hx; omega
+  · intro p k tr ti hr hi
+    rw [hres] at hr; rw [hinv] at hi
+    rcases upd_concat_cases hr with hr | ⟨_, _, htr⟩
+    · exact t.ir p k tr ti hr hi
+    · have := t.ltI p ti (mem_of_get hi); omega
+  · intro i c k i' c' k' tr ti id id' cmd cmd' n j n' j' hr hi hlt hs hs' hl hl'
+    rw [hres] at hr; rw [hinv] at hi
+    rw [receive_subs] at hs hs'
+    rw [receive_log] at hl hl'
+    rcases upd_concat_cases hr with hr | ⟨_, _, htr⟩
+    · exact t.rt i c k i' c' k' tr ti id id' cmd cmd' n j n' j' hr hi hlt hs hs' hl hl'
+    · have := t.ltI _ ti (mem_of_get hi); omega
+
+theorem reach_ginvT {st : State Node Id Conn S Cmd Reply} (r : ReachF step s0 st) : GInvT st := by
+  induction r with
+  | init => exact ginvT_init s0
+  | @step st ev r0 hen hg ih =>
+    have g := reach_ginv step s0 r0
+    cases ev with
+    | submit i c cmd id => exact ginvT_submit step s0 g ih i c cmd id hg
+    | apply i e => exact ginvT_apply step s0 g (reach_ginv step s0 (Reach.step r0 hen hg)) ih hg
+    | receive i c => exact ginvT_receive step ih i c hen
+
+
+/-! ## the one log -/
+
+/-- `L` is the replicated log as far as any node has applied it: every node's applied log is a prefix of `L`, and `L` is the applied
+    log of some node (or empty) -/
+def Shared (st : State Node Id Conn S Cmd Reply) (L : List (Entry Id Cmd)) : Prop :=
+  (∀ i, (st.node i).log <+: L) ∧ (L = [] ∨ ∃ j, L = (st.node j).log)
+
+/-- finitely many nodes with pairwise prefix-comparable applied logs: one of the logs contains all the others -/
+theorem shared_exists {st : State Node Id Conn S Cmd Reply} (h : GInv step s0 st) (nodes : List Node) (hall : ∀ i, i ∈ nodes) :
+    ∃ L, Shared st L := by
+  have key : ∀ l : List Node, ∃ L, (∀ i, i ∈ l → (st.node i).log <+: L) ∧ (L = [] ∨ ∃ j, L = (st.node j).log) := by
+    intro l
+    induction l with
+    | nil => exact ⟨[], fun i hi => (by cases hi), Or.inl rfl⟩
+    | cons a l ih =>
+      obtain ⟨L, hL, hc⟩ := ih
+      rcases hc with hc | ⟨j, hj⟩
+      · subst hc
+        refine ⟨(st.node a).log, ?_, Or.inr ⟨a, rfl⟩⟩
+        intro i hi
+        rcases List.mem_cons.1 hi with hi | hi
+        · subst hi; exact List.prefix_refl _
+        · have := List.prefix_nil.1 (hL i hi)
+          rw [this]; exact List.nil_prefix
+      · subst hj
+        rcases h.cmp a j with hp | hp
+        · refine ⟨(st.node j).log, ?_, Or.inr ⟨j, rfl⟩⟩
+          intro i hi
+          rcases List.mem_cons.1 hi with hi | hi
+          · subst hi; exact hp
+          · exact hL i hi
+        · refine ⟨(st.node a).log, ?_, Or.inr ⟨a, rfl⟩⟩
+          intro i hi
+          rcases List.mem_cons.1 hi with hi | hi
+          · subst hi; exact List.prefix_refl _
+          · exact List.IsPrefix.trans (hL i hi) hp
+  obtain ⟨L, hL, hc⟩ := key nodes
+  exact ⟨L, fun i => hL i (hall i), hc⟩
+
+theorem Shared.node_of {st : State Node Id Conn S Cmd Reply} {L : List (Entry Id Cmd)} (hL : Shared st L) {j : Nat} {x : Entry Id Cmd}
+    (h : L[j]? = some x) : ∃ n, (st.node n).log[j]? = some x := by
+  rcases hL.2 with h0 | ⟨n, hn⟩
+  · subst h0; simp at h
+  · exact ⟨n, by rw [← hn]; exact h⟩
+
+theorem Shared.uniq {st : State Node Id Conn S Cmd Reply} {L : List (Entry Id Cmd)} (g : GInv step s0 st) (hL : Shared st L)
+    {j j' : Nat} {x x' : Entry Id Cmd} (h : L[j]? = some x) (h' : L[j']? = some x') (hid : x.id = x'.id) : j = j' := by
+  obtain ⟨n, hn⟩ := hL.node_of h
+  obtain ⟨n', hn'⟩ := hL.node_of h'
+  exact g.pos_unique step s0 hn hn' hid
+
+theorem take_of_prefix {α : Type} {l l' : List α} (hp : l <+: l') {j : Nat} (hj : j ≤ l.length) : l'.take j = l.take j := by
+  obtain ⟨t, rfl⟩ := hp
+  exact List.take_append_of_le_length hj
+
+/-! ## the theorems, for the cluster -/
+
+/-- **own_reply, cluster-wide**: the `k`-th reply connection `c` of node `i` has received is the reply of its own `k`-th command, run
+    at the position `j` of that command's entry in the ONE replicated log `L` — the entry is there, it is the only entry of `L` with
+    that id, and the reply is `(step (state after L[0..j)) cmd).2`; one reply per command, in the order of its own submissions -/
+def OwnReplyAt (st : State Node Id Conn S Cmd Reply) (L : List (Entry Id Cmd)) (i : Node) (c : Conn) : Prop :=
+    (∀ (k : Nat) (r : Reply), ((st.node i).delivered c)[k]? = some r →
+      ∃ (id : Id) (cmd : Cmd) (j : Nat), ((st.node i).subs c)[k]? = some (id, cmd) ∧ L[j]? = some ⟨id, cmd⟩ ∧
+        (∀ (j' : Nat) (e' : Entry Id Cmd), L[j']? = some e' → e'.id = id → j' = j) ∧
+        r = (step (runLog step s0 (L.take j)) cmd).2) ∧
+    ((st.node i).delivered c).length ≤ ((st.node i).subs c).length ∧
+    ((st.node i).subs c).length ≤ ((st.node i).delivered c).length + 1
+
+theorem own_reply_shared {st : State Node Id Conn S Cmd Reply} (r : ReachF step s0 st) {L : List (Entry Id Cmd)} (hL : Shared st L)
+    (i : Node) (c : Conn) : OwnReplyAt step s0 st L i c := by
+  have g := reach_ginv step s0 r
+  obtain ⟨h1, h2⟩ := own_reply step s0 (g.nodeR i) c
+  refine ⟨?_, h2⟩
+  intro k rep hd
+  obtain ⟨id, cmd, j, hs, hl, _, hr⟩ := h1 k rep hd
+  have hLj := prefix_get (hL.1 i) hl
+  refine ⟨id, cmd, j, hs, hLj, ?_, ?_⟩
+  · intro j' e' he' hid
+    exact hL.uniq step s0 g he' hLj hid
+  · rw [take_of_prefix (hL.1 i) (Nat.le_of_lt (lt_of_get hl))]; exact hr
+
+/-- **real-time order across nodes**: if the reply to the `k`-th command of connection `c` of node `i` was received before the
+    `k'`-th command of connection `c'` of node `i'` was submitted (cluster clock), the entry of the former is earlier in the log -/
+theorem real_time_shared {st : State Node Id Conn S Cmd Reply} (r : ReachF step s0 st) {L : List (Entry Id Cmd)} (hL : Shared st L)
+    {i i' : Node} {c c' : Conn} {k k' tr ti j j' : Nat} {id id' : Id} {cmd cmd' : Cmd}
+    (hres : (st.resT (i, c))[k]? = some tr) (hinv : (st.invT (i', c'))[k']? = some ti) (hlt : tr < ti)
+    (hs : ((st.node i).subs c)[k]? = some (id, cmd)) (hs' : ((st.node i').subs c')[k']? = some (id', cmd'))
+    (hl : L[j]? = some ⟨id, cmd⟩) (hl' : L[j']? = some ⟨id', cmd'⟩) : j < j' := by
+  obtain ⟨n, hn⟩ := hL.node_of hl
+  obtain ⟨n', hn'⟩ := hL.node_of hl'
+  exact (reach_ginvT step s0 r).rt i c k i' c' k' tr ti id id' cmd cmd' n j n' j' hres hinv hlt hs hs' hn hn'
+
+/-- the combined client history of the cluster: the `k`-th operation of connection `p.2` of node `p.1` (invocation = `submit`,
+    response = `receive`, both on the cluster clock) -/
+def history (st : State Node Id Conn S Cmd Reply) (p : Node × Conn) (k : Nat) : Option (Op Cmd Reply) :=
+  match ((st.node p.1).subs p.2)[k]?, (st.invT p)[k]? with
+  | some q, some ti =>
+    some { cmd := q.2, inv := ti
+           res := match ((st.node p.1).delivered p.2)[k]?, (st.resT p)[k]? with
+             | some r, some tr => some (tr, r)
+             | _, _ => none }
+  | _, _ => none
+
+theorem history_some {st : State Node Id Conn S Cmd Reply} {p : Node × Conn} {k : Nat} {o : Op Cmd Reply} (h : history st p k = some o) :
+    ∃ id, ((st.node p.1).subs p.2)[k]? = some (id, o.cmd) ∧ (st.invT p)[k]? = some o.inv ∧
+      ∀ t r, o.res = some (t, r) → ((st.node p.1).delivered p.2)[k]? = some r ∧ (st.resT p)[k]? = some t := by
+  unfold history at h
+  split at h
+  · rename_i q ti hq hti
+    cases h
+    refine ⟨q.1, hq, hti, ?_⟩
+    intro t r hres
+    simp only at hres
+    split at hres
+    · rename_i r' tr' hd hr; cases hres; exact ⟨hd, hr⟩
+    · cases hres
+  · cases h
+
+open Classical in
+/-- the position in `L` of the entry of the `k`-th command of connection `p.2` of node `p.1`, if it is there -/
+noncomputable def logPos (st : State Node Id Conn S Cmd Reply) (L : List (Entry Id Cmd)) (p : Node × Conn) (k : Nat) : Option Nat :=
+  if h : ∃ j : Nat, ∃ id cmd, ((st.node p.1).subs p.2)[k]? = some (id, cmd) ∧ L[j]? = some (⟨id, cmd⟩ : Entry Id Cmd) then some (choose h) else none
+
+theorem logPos_spec {st : State Node Id Conn S Cmd Reply} {L : List (Entry Id Cmd)} {p : Node × Conn} {k j : Nat} (h : logPos st L p k = some j) :
+    ∃ id cmd, ((st.node p.1).subs p.2)[k]? = some (id, cmd) ∧ L[j]? = some (⟨id, cmd⟩ : Entry Id Cmd) := by
+  unfold logPos at h
+  split at h
+  · rename_i hex; cases h; exact Classical.choose_spec hex
+  · cases h
+
+theorem logPos_of {st : State Node Id Conn S Cmd Reply} {L : List (Entry Id Cmd)} (g : GInv step s0 st) (hL : Shared st L)
+    {p : Node × Conn} {k j : Nat} {id : Id} {cmd : Cmd}
+    (hs : ((st.node p.1).subs p.2)[k]? = some (id, cmd)) (hl : L[j]? = some ⟨id, cmd⟩) : logPos st L p k = some j := by
+  have hex : ∃ j : Nat, ∃ id cmd, ((st.node p.1).subs p.2)[k]? = some (id, cmd) ∧ L[j]? = some (⟨id, cmd⟩ : Entry Id Cmd) := ⟨j, id, cmd, hs, hl⟩
+  unfold logPos
+  rw [dif_pos hex]
+  obtain ⟨id', cmd', hs', hl'⟩ := Classical.choose_spec hex
+  rw [hs] at hs'; cases hs'
+  exact congrArg some (hL.uniq step s0 g hl' hl rfl)
+
+/-- **linearizability of the combined history of all clients of all nodes**, witness = the order of the one log `L`: the sequential
+    history is the list of the commands of `L`, every operation sits at the position of its own entry, the reply of every completed
+    operation is the reply of the sequential run at that position (`own_reply_shared`), and an operation answered before another was
+    submitted — at whichever nodes — precedes it (`real_time_shared`) -/
+theorem linearizable_shared {st : State Node Id Conn S Cmd Reply} (r : ReachF step s0 st) {L : List (Entry Id Cmd)} (hL : Shared st L) :
+    Linearizable step s0 (history st) := by
+  have g := reach_ginv step s0 r
+  have t := reach_ginvT step s0 r
+  refine ⟨L.map (·.cmd), logPos st L, ?_, ?_, ?_, ?_⟩
+  · intro p k j hp
+    obtain ⟨id, cmd, hs, hl⟩ := logPos_spec hp
+    have hk : k < (st.invT p).length := by
+      have := t.lenI p.1 p.2
+      rw [this]; exact lt_of_get hs
+    have hh : ∃ o, history st p k = some o ∧ o.cmd = cmd := by
+      simp only [history, hs, List.getElem?_eq_getElem hk]
+      exact ⟨_, rfl, rfl⟩
+    obtain ⟨o, ho, hc⟩ := hh
+    exact ⟨o, ho, by simp [List.getElem?_map, hl, hc]⟩
+  · intro p k p' k' j hp hp'
+    obtain ⟨id, cmd, hs, hl⟩ := logPos_spec hp
+    obtain ⟨id', cmd', hs', hl'⟩ := logPos_spec hp'
+    rw [hl] at hl'; cases hl'
+    obtain ⟨a1, a2, a3⟩ := g.gsub _ _ _ _ _ _ _ _ _ hs hs'
+    exact ⟨Prod.ext a1 a2, a3⟩
+  · intro p k o tm rep hh hres
+    obtain ⟨id, hs, _, hc⟩ := history_some hh
+    obtain ⟨hd, _⟩ := hc tm rep hres
+    obtain ⟨id0, cmd0, j, hs0, hl0, _, hrr⟩ := (own_reply_shared step s0 r hL p.1 p.2).1 k rep hd
+    rw [hs] at hs0; cases hs0
+    refine ⟨j, logPos_of step s0 g hL hs hl0, ?_⟩
+    rw [hrr, runLog_eq_seqRun, List.map_take]
+  · intro p k p' k' o o' tm rep j j' hh hh' hres hlt hp hp'
+    obtain ⟨id, hs, _, hc⟩ := history_some hh
+    obtain ⟨id', hs', hinv', _⟩ := history_some hh'
+    obtain ⟨_, hrt⟩ := hc tm rep hres
+    obtain ⟨id1, cmd1, hs1, hl1⟩ := logPos_spec hp
+    obtain ⟨id2, cmd2, hs2, hl2⟩ := logPos_spec hp'
+    exact real_time_shared step s0 r hL hrt hinv' hlt hs1 hs2 hl1 hl2
+
+/-- two nodes that have applied the same number of entries have applied the same entries and hold the same state machine state -/
+theorem applied_agree_len {st : State Node Id Conn S Cmd Reply} (r : ReachF step s0 st) (i j : Node)
+    (hlen : (st.node i).log.length = (st.node j).log.length) :
+    (st.node i).log = (st.node j).log ∧ (st.node i).sm = (st.node j).sm := by
+  have g := reach_ginv step s0 r
+  have hlog : (st.node i).log = (st.node j).log := by
+    rcases g.cmp i j with hp | hp
+    · exact List.IsPrefix.eq_of_length hp hlen
+    · exact (List.IsPrefix.eq_of_length hp hlen.symm).symm
+  refine ⟨hlog, ?_⟩
+  rw [(reach_inv step s0 (g.nodeR i)).sm_log, (reach_inv step s0 (g.nodeR j)).sm_log, hlog]
+
+/-- any two nodes: the node that has applied fewer entries has applied a prefix of the other's, and its state machine is the other's
+    as it was after that prefix -/
+theorem applied_prefix {st : State Node Id Conn S Cmd Reply} (r : ReachF step s0 st) (i j : Node)
+    (hle : (st.node i).log.length ≤ (st.node j).log.length) :
+    (st.node i).log = (st.node j).log.take (st.node i).log.length ∧
+    (st.node i).sm = runLog step s0 ((st.node j).log.take (st.node i).log.length) := by
+  have g := reach_ginv step s0 r
+  have hp : (st.node i).log <+: (st.node j).log := by
+    rcases g.cmp i j with hp | hp
+    · exact hp
+    · have := List.IsPrefix.eq_of_length_le hp hle
+      rw [this]; exact List.prefix_refl _
+  have h1 : (st.node i).log = (st.node j).log.take (st.node i).log.length := by
+    rw [take_of_prefix hp (Nat.le_refl _)]; simp
+  refine ⟨h1, ?_⟩
+  rw [← h1]; exact (reach_inv step s0 (g.nodeR i)).sm_log
+
 end Multi
